@@ -93,6 +93,7 @@ func c01Programs(tier string) []*schedmc.Program {
 			Opts: simcluster.Opts{N: cf.n, Replicas: cf.r, WriteQ: 1, ReadQ: 1, Partitions: 7, TableSize: cf.table}}
 		init := ""
 		p.Setup = func(cl *simcluster.Cluster, p *schedmc.Program) {
+			schedmc.Warm(cl, p.DMap)
 			kv, _ := cl.Entry("EO", p.DMap, p.Key)
 			switch cf.pre {
 			case "present":
@@ -144,20 +145,27 @@ func c01Programs(tier string) []*schedmc.Program {
 			if !ok {
 				return "not-linearizable/" + sig, "no sequential order consistent with real time explains the responses"
 			}
-			for _, mem := range cl.Live() {
-				dm, _ := mem.Emb.NewDMap("d")
-				r := simcluster.WrapDMap("", dm).Get("k")
-				got := string(r.Val)
-				h.Note = "final=" + got
-				if r.Err != "" && r.Err != "notfound" {
-					return "final-read-error/" + sig, fmt.Sprintf("final Get from %s: %s", mem.Name, r.Err)
+			for pass := 0; pass < 2; pass++ {
+				if pass == 1 {
+					// an hour later the value is the same: no call asked for an expiry
+					schedmc.AfterAWhile()
+					sig += "/an-hour-later"
 				}
-				match := false
-				for _, f := range finals {
-					match = match || f == got
-				}
-				if !match {
-					return "final-value/" + sig, fmt.Sprintf("after the run Get from %s returns %q; linearizations allow %q", mem.Name, got, finals)
+				for _, mem := range cl.Live() {
+					dm, _ := mem.Emb.NewDMap("d")
+					r := simcluster.WrapDMap("", dm).Get("k")
+					got := string(r.Val)
+					h.Note = "final=" + got
+					if r.Err != "" && r.Err != "notfound" {
+						return "final-read-error/" + sig, fmt.Sprintf("final Get from %s: %s", mem.Name, r.Err)
+					}
+					match := false
+					for _, f := range finals {
+						match = match || f == got
+					}
+					if !match {
+						return "final-value/" + sig, fmt.Sprintf("after the run Get from %s returns %q; linearizations allow %q", mem.Name, got, finals)
+					}
 				}
 			}
 			return "", ""
